@@ -467,7 +467,11 @@ func runParent(propId, tier string) int {
 			self = filepath.Join(filepath.Dir(self), "verifmon-race")
 		}
 	}
-	timeout := 900
+	// generous wall-clock watchdog (firing is inconclusive, never a verdict about the property)
+	timeout := 1800
+	if tier == "thorough" {
+		timeout = 7200
+	}
 	if p.TimeoutSec != nil {
 		timeout = p.TimeoutSec(tier)
 	}
